@@ -17,6 +17,7 @@ CONSTANTS
   WithRejects = FALSE
   ExportOneIn = 10
   RecoveryCrashes = FALSE
+  Batch = FALSE
 INVARIANTS NoViolation CacheCounterExact ChunksAbut DurableIsPrefix Export CorruptionReported MissingChunkReported
 VIEW View
 ALIAS Alias
